@@ -134,3 +134,58 @@ func Canon(res *commands.CheckResult, err error) string {
 	}
 	return fmt.Sprintf("%s c=%d", b, c)
 }
+
+// ---- engines that persist across the requests of one case (shared caches) ----
+
+// Engine answers Check requests against one store/model; Close releases its caches.
+type Engine interface {
+	Check(rq fga.Req, ctxTuples []fga.Tuple) string
+	Close()
+}
+
+type v1Engine struct {
+	ts       *typesystem.TypeSystem
+	ds       storage.OpenFGADatastore
+	resolver graph.CheckResolver
+	closer   func()
+}
+
+// NewV1 builds the default engine (LocalChecker, optional CachedCheckResolver in front of it) once, so
+// that the Check query cache is shared by all requests sent through the returned engine.
+func NewV1(ts *typesystem.TypeSystem, ds storage.OpenFGADatastore, cfg Config, queryCache bool) Engine {
+	opts := []graph.CheckResolverOrderedBuilderOpt{
+		graph.WithLocalCheckerOpts(
+			graph.WithResolveNodeBreadthLimit(cfg.Breadth),
+			graph.WithMaxResolutionDepth(cfg.MaxDepth),
+			graph.WithPlanner(&ForcedPlanner{Want: cfg.Strategy}),
+			graph.WithOptimizations(true),
+		),
+	}
+	if queryCache {
+		opts = append(opts, graph.WithCachedCheckResolverOpts(true, graph.WithCacheTTL(time.Hour)))
+	}
+	resolver, closer, err := graph.NewOrderedCheckResolvers(opts...).Build()
+	if err != nil {
+		panic(err)
+	}
+	return &v1Engine{ts: ts, ds: ds, resolver: resolver, closer: closer}
+}
+
+func (e *v1Engine) Close() { e.closer() }
+
+func (e *v1Engine) Check(rq fga.Req, ctxTuples []fga.Tuple) string {
+	cmd := commands.NewCheckCommand(e.ds, e.resolver, e.ts)
+	ctx, cancel := context.WithTimeout(context.Background(), 20*time.Second)
+	defer cancel()
+	var ct *openfgav1.ContextualTupleKeys
+	if len(ctxTuples) > 0 {
+		ct = &openfgav1.ContextualTupleKeys{TupleKeys: fga.Keys(ctxTuples)}
+	}
+	res, err := cmd.Execute(ctx, &commands.CheckCommandParams{
+		StoreID:          StoreID,
+		TupleKey:         &openfgav1.CheckRequestTupleKey{Object: rq.Obj, Relation: rq.Rel, User: rq.User},
+		ContextualTuples: ct,
+		Context:          fga.CtxStruct(rq.Ctx),
+	})
+	return Canon(res, err)
+}
